@@ -38,7 +38,7 @@ func (a *AttesterSlashing) HashTreeRoot(spec *common.Spec, hFn tree.HashFn) comm
 }
 
 func BlockAttesterSlashingsType(spec *common.Spec) ListTypeDef {
-	return ListType(AttesterSlashingType(spec), uint64(spec.MAX_ATTESTER_SLASHINGS))
+	return ListType(AttesterSlashingType(spec), uint64(spec.MAX_ATTESTER_SLASHINGS_ELECTRA))
 }
 
 func AttesterSlashingType(spec *common.Spec) *ContainerTypeDef {
